@@ -5,11 +5,12 @@ using namespace vh;
 
 static Rng rng;
 
-static const char *acls_name[] = {"tiny", "2^-30", "mid", "max(1/(20M))"};
+static const char *acls_name[] = {"tiny", "2^-30", "mid", "max(1/(20M))", "zero"};
 static double pick_alpha(int cls, double amax) {
     switch (cls) {
         case 0: return 1e-12 < amax ? 1e-12 : amax;
         case 1: return ldexp(1., -30) < amax ? ldexp(1., -30) : amax;
+        case 4: return 0.;      // a fresh encryption with no noise at all still has a random mask
         case 2: return exp(log(ldexp(1., -30)) + rng.unit() * (log(amax) - log(ldexp(1., -30))));
         default: return amax;
     }
@@ -37,7 +38,7 @@ static void lwe_part(bool thorough) {
             LweSample *c = new_LweSample(P);
             for (int32_t M: Ms) {
                 double amax = 1.0 / (20.0 * M);
-                for (int ac = 0; ac < 4; ac++) {
+                for (int ac = 0; ac < 5; ac++) {
                     double alpha = pick_alpha(ac, amax);
                     for (int32_t m: messages(M, thorough ? 40 : 10)) {
                         Torus32 mu = modSwitchToTorus32(m, M);
@@ -84,7 +85,7 @@ static void tlwe_part(int k, bool thorough) {
         TLweKey *K = new_TLweKey(P); tLweKeyGen(K);
         for (int32_t M: Ms) {
             double amax = 1.0 / (20.0 * M);
-            for (int ac = 0; ac < 4; ac++) {
+            for (int ac = 0; ac < 5; ac++) {
                 double alpha = pick_alpha(ac, amax);
                 // constant messages
                 std::vector<int32_t> ms = messages(M, 4); if (!thorough && ms.size() > 8) ms.resize(8);
@@ -147,7 +148,7 @@ static void tgsw_part(int k, int l, int Bgbit, bool thorough) {
         int32_t M = 1 << lgM;
         // row noise is multiplied by the digit Bg/M of 1/M: (Bg/M) alpha <= 1/(20 M)
         double amax = 1.0 / (20.0 * Bg);
-        for (int ac = 0; ac < 4; ac++) {
+        for (int ac = 0; ac < 5; ac++) {
             double alpha = pick_alpha(ac, amax);
             for (int rep = 0; rep < (thorough ? 3 : 2); rep++) {
                 for (int j = 0; j < N; j++) msg->coefs[j] = rep == 0 ? (int32_t) (j % M) : rep == 1 ? (int32_t) rng.below(M) : (int32_t) rng.below(M) - M;  // negative representatives too
@@ -208,7 +209,7 @@ int main(int argc, char **argv) {
     std::string part = args.s("part", "lwe");
     rng.reseed(seed * 1000003ull + fnv1a(part.data(), part.size()) % 997);
     seed_library(seed * 3 + fnv1a(part.data(), part.size()) % 997);
-    if (part == "lwe") { lwe_part(thorough); out.sample(J().s("part", "lwe").s("n", "1,2,7,8,9,16,500,630,1024").s("Msize", "2,3,4,5,7,8,16,100,1000,1024,2^12,2^16,2^20").s("alpha_classes", "tiny,2^-30,log-uniform,1/(20 Msize)")); }
+    if (part == "lwe") { lwe_part(thorough); out.sample(J().s("part", "lwe").s("n", "1,2,7,8,9,16,500,630,1024").s("Msize", "2,3,4,5,7,8,16,100,1000,1024,2^12,2^16,2^20").s("alpha_classes", "tiny,2^-30,log-uniform,1/(20 Msize),exactly 0")); }
     else if (part == "tlwe") { tlwe_part(args.i("k", 1), thorough); out.sample(J().s("part", "tlwe").i("k", args.i("k", 1)).s("messages", "constant and polynomial (all 1024 coefficients)")); }
     else if (part == "tgsw") { tgsw_part(args.i("k", 1), args.i("l", 3), args.i("Bgbit", 7), thorough); out.sample(J().s("part", "tgsw").i("k", args.i("k", 1)).i("l", args.i("l", 3)).i("Bgbit", args.i("Bgbit", 7))); }
     else if (part == "gate") { gate_part(80, thorough ? 2000 : 300); gate_part(128, thorough ? 2000 : 300); out.sample(J().s("part", "gate-api").s("sets", "80-bit and 128-bit defaults")); }
